@@ -89,7 +89,7 @@ def id_classes():
 LICREF_LIKE = ["LicenseRef-Acme_Internal", "LicenseRef-Lizenz-f\u00fcr-X", "LicenseRef-a:b", "LicenseRef-", "LicenseRef-x_", "LicenseRef-_0",
                "LicenseRef-\u65e5\u672c", "LicenseRef-\u0663", "LicenseRef-\u00e9.1", "LicenseRef-a\u00b2"]
 # further look-alikes that can only occur as names below LICENSES/ (the expression parser refuses them inside an expression)
-LICREF_LIKE_NAMES = ["LicenseRef-a~b", "LicenseRef-a@b", "LicenseRef-a b", "LicenseRef-a,b", "LicenseRef-(x)", "LicenseRef-a=b", "LicenseRef-caf\u00e9!"]
+LICREF_LIKE_NAMES = ["LicenseRef-a~b", "LicenseRef-a@b", "LicenseRef-a,b", "LicenseRef-(x)", "LicenseRef-a=b", "LicenseRef-caf\u00e9!"]
 
 
 # ----------------------------------------------------------------------------
